@@ -259,7 +259,7 @@ class Scheduler:
         if nxt < 0:
             return False
         self.lock_yields += 1
-        if self.lock_yields > 200000:
+        if self.lock_yields > 20000:  # a holder gets the baton within n-1 yields; tens of thousands of fruitless yields = nobody can release
             raise DeadlockDetected("worker threads keep yielding on locks without progress")
         self.current = nxt
         self.sems[nxt].release()
